@@ -69,7 +69,10 @@ class MarginalRayHeightSolve(BaseSolve):
     def apply(self):
         """Applies the MarginalRayHeightSolve to the optic."""
         ya, ua = self.optic.paraxial.marginal_ray()
-        offset = (self.height - ya[self.surface_idx]) / ua[self.surface_idx]
+        # the surface slides along the ray incident on it, i.e. with the
+        # slope behind the previous surface
+        offset = ((self.height - ya[self.surface_idx])
+                  / ua[self.surface_idx - 1])
 
         # shift current surface and all subsequent surfaces
         for surface in self.optic.surface_group.surfaces[self.surface_idx:]:
